@@ -263,7 +263,8 @@ Proof.
       rewrite G1, G2. simpl. exact Hs3.
     - inversion E4; subst. exact Hs3. }
   match goal with |- context [scan_configs P ?S ?F ?N] => destruct (scan_configs P S F N) as [s5|] eqn:ES end; [|discriminate].
-  intros H; inversion H; subst. apply scan_configs_same in ES. destruct ES as (E1 & E2 & _). rewrite E1, E2. exact Hs4.
+  intros H; inversion H; subst. apply scan_configs_same in ES. destruct ES as (E1 & E2 & _).
+  match goal with |- context [if ?B then _ else _] => destruct B end; [change (v_leader s5 = 0 /\ v_role s5 = Follower)|]; rewrite E1, E2; exact Hs4.
 Qed.
 
 (* ---------------------------------------------------------------- the invariant over histories *)
